@@ -195,6 +195,9 @@ def rule_datetime(ck):
             % (' and the '.join(missing) or '?', len(branches))))
     for f, b in branches:
         oo = ck.ob('C04-D3.rewrite', f, b.test, b)
+        # `if name != 'datetime': <plain> else: <rewrite>` is the same branch with its arms swapped
+        arm = b.orelse if (len(b.test.ops) == 1 and isinstance(b.test.ops[0], (ast.NotEq, ast.IsNot))) else b.body
+        b = ast.If(test=b.test, body=arm, orelse=[])
         names = [a for a in b.body if isinstance(a, ast.Assign) and isinstance(a.targets[0], ast.Name) and a.targets[0].id == 'name']
         vals = [a for a in b.body if isinstance(a, ast.Assign) and isinstance(a.targets[0], ast.Name) and a.targets[0].id == 'value']
         probs = []
